@@ -193,11 +193,14 @@ func vTrafficRoutings() []v1beta1.TrafficRoutingRef {
 // vKindChoice makes the workload kind a harness choice (Deployment / CloneSet / StatefulSet) when set.
 var vKindChoice = false
 
+// vKindMax: highest workload kind index offered when vKindChoice is set (0 Deployment, 1 CloneSet, 2 StatefulSet).
+var vKindMax = 2
+
 func vWorkloadRef(def v1beta1.ObjectRef) v1beta1.ObjectRef {
 	if !vKindChoice {
 		return def
 	}
-	switch verifrt.IntRange("workloadKind", 0, 2) {
+	switch verifrt.IntRange("workloadKind", 0, vKindMax) {
 	case 0:
 		return v1beta1.ObjectRef{APIVersion: "apps/v1", Kind: "Deployment", Name: "w"}
 	case 1:
